@@ -29,6 +29,7 @@ RULE = ("random block programs inside `async with scoped_iter(underlying)`: sequ
         "entered by hand and left in EVERY order (incl. non-LIFO) with re-entrance attempts; distinct = (flavour, program, exit)")
 ASSUMPTIONS = ["iterables without aclose get a neutral context: only the in-block sequence semantics are checked for them",
                "tool laziness is C05's concern; the stdlib twin predicts how many items each tool takes"]
+EXHAUSTIVE_SUBSPACES = 'nested scopes of depth 2..3 left in every order x 3 underlying kinds x 0..2 items taken'
 EXHAUSTIVE = {"quick": False, "thorough": False}
 N_PROG = {"quick": 4000, "thorough": 200000}
 FLAVS = ["async_gen", "async_class", "async_class", "async_class_bare", "sync_iter", "slowclose", "failclose"]
